@@ -60,7 +60,7 @@ ARG_TYPES = {"get_moment": ["nat"], "is_discrete": [], "get_support": [], "mgf_e
 RET_TYPES = {"get_moment": "Q", "is_discrete": "bool", "get_support": "supp", "mgf_exists_at": "bool"}
 COQ_TY = {"Q": "Qc", "Z": "Z", "nat": "nat", "bool": "bool", "listQ": "list Qc", "listZ": "list Z",
           "listnat": "list nat", "supp": "list sitem", "sqv": "sqv", "srv": "srv", "ext": "ext"}
-RESERVED = set("""fun let in match with end if then else forall exists fix cofix as return Type Prop Set
+RESERVED = set("""z mklin lin fun let in match with end if then else forall exists fix cofix as return Type Prop Set
 qpow qnat qz mkq qabs qfact rising qsum pmf enumerate zrange shift sumn qbinom binsum fold_left map seq length combine
 sympy_moment SGamma SBeta SNormal SLaplace Rat Sqrt SPoint SIv Fin PosInf NegInf negb orb andb true false
 Qc_eqb Qc_ltb Qc_leb nat Z Qc bool list""".split())
@@ -424,32 +424,109 @@ class Tr:
             self.fail(n, "sympy.stats.E is only translated in the form E(x ** k)")
         self.fail(n, f"call of {name} is outside the translated subset")
 
-    def fstring(self, js, env):
-        """sympify(f"...{e}...") : the template is parsed as an expression with the
-        interpolated values as atoms (str() of a symengine number re-parses to itself)"""
+    def fstring_template(self, js, env):
+        """f"...{e}..."  ->  (expression AST of the template with the interpolated values as
+        atoms, environment for the atoms).  The printed text of an interpolated value is a
+        sum of terms in general, so treating it as ONE atom is only right if the template
+        puts it in parentheses or in a purely additive position: checked, else abort."""
         txt = ""
         loc = dict(env)
         i = 0
+        spans = []
         for part in js.values:
             if isinstance(part, ast.Constant) and isinstance(part.value, str):
                 txt += part.value
             elif isinstance(part, ast.FormattedValue) and part.conversion == -1 and part.format_spec is None:
                 v = self.expr(part.value, env)
-                if v.ty not in ("Q", "Z", "nat", "static"):
+                if v.ty not in ("Q", "Z", "nat", "static", "zvar"):
                     self.fail(js, f"interpolation of a value of type {v.ty}")
                 nm = f"__fs{i}"
                 i += 1
                 loc[nm] = v
-                txt += f" {nm} "   # a number prints as one atom or a parenthesis-free quotient: see note
+                spans.append((len(txt), len(txt) + len(nm), v))
+                txt += nm
             else:
                 self.fail(js, "f-string part")
+        for lo, hi, v in spans:
+            if v.ty == "zvar":
+                continue    # a fresh Symbol prints as an identifier
+            before = txt[:lo].rstrip()
+            after = txt[hi:].lstrip()
+            pb = before[-1] if before else ""
+            pa = after[0] if after else ""
+            paren = pb == "(" and pa == ")"
+            additive = pb in ("", "(", "+") and (pa in ("", ")", "+") or (pa == "-" and not after.startswith("-" * 2)))
+            if not (paren or additive):
+                self.fail(js, f"interpolated value between {pb!r} and {pa!r}: precedence of its printed text is not guaranteed")
         try:
             tree = ast.parse(txt.strip(), mode="eval").body
         except SyntaxError:
             self.fail(js, f"f-string template {txt!r} is not an expression")
         for sub in ast.walk(tree):
             sub.lineno = getattr(js, "lineno", 0)
+        return tree, loc
+
+    def fstring(self, js, env):
+        tree, loc = self.fstring_template(js, env)
         return self.expr(tree, loc)
+
+    # ---- linear forms  c0 + c1 * z  in the fresh variable z (dist_transformer templates) ----
+    def lin(self, n, env):
+        """-> (c0, c1): V or None each"""
+        if isinstance(n, ast.Name) and n.id in env and env[n.id].ty == "zvar":
+            return None, V.static(1)
+        if isinstance(n, ast.BinOp) and isinstance(n.op, (ast.Add, ast.Sub)):
+            a0, a1 = self.lin(n.left, env)
+            b0, b1 = self.lin(n.right, env)
+            sub = isinstance(n.op, ast.Sub)
+
+            def comb(x, y):
+                if y is None:
+                    return x
+                if x is None:
+                    if not sub:
+                        return y
+                    if y.is_static:
+                        return V.static(-y.val)
+                    if y.ty != "Q":
+                        self.fail(n, "negated square root coefficient")
+                    return V(f"(- {y.term})", "Q")
+                if x.is_static and y.is_static:
+                    return V.static(x.val - y.val if sub else x.val + y.val)
+                if "sqv" in (x.ty, y.ty):
+                    self.fail(n, "sum of square-root coefficients")
+                return V(f"({self.coerce(x, 'Q', n)} {'-' if sub else '+'} {self.coerce(y, 'Q', n)})", "Q")
+            return comb(a0, b0), comb(a1, b1)
+        if isinstance(n, ast.BinOp) and isinstance(n.op, ast.Mult):
+            a0, a1 = self.lin(n.left, env)
+            b0, b1 = self.lin(n.right, env)
+            if a1 is not None and b1 is not None:
+                self.fail(n, "product of two terms containing the fresh variable")
+            if a1 is None and b1 is None:
+                return self.mulc(a0, b0, n), None
+            (c, _), (l0, l1) = ((a0, a1), (b0, b1)) if a1 is None else ((b0, b1), (a0, a1))
+            if c is None:
+                return None, None
+            return (self.mulc(c, l0, n) if l0 is not None else None), self.mulc(c, l1, n)
+        v = self.expr(n, env)
+        if v.ty not in ("Q", "Z", "nat", "static", "sqv"):
+            self.fail(n, f"coefficient of type {v.ty}")
+        if v.is_static and v.val == 0:
+            return None, None
+        return v, None
+
+    def mulc(self, x, y, n):
+        if x is None or y is None:
+            return None
+        if x.is_static and y.is_static:
+            return V.static(x.val * y.val)
+        if x.is_static and x.val == 1:
+            return y
+        if y.is_static and y.val == 1:
+            return x
+        if "sqv" in (x.ty, y.ty):
+            self.fail(n, "product with a square-root coefficient")
+        return V(f"({self.coerce(x, 'Q', n)} * {self.coerce(y, 'Q', n)})", "Q")
 
     def elem(self, n, env):
         """one element of a support set"""
@@ -811,8 +888,189 @@ def check_pinned():
             raise Unsupported(mod3.rel, None, f"{cl} is imported from {mod3.resolve(cl)}, expected {want_mod}")
 
 
+# ---- location/scale rewriting (program/transformer/dist_transformer.py) ------------------
+LOCSCALE = [  # method, class of the rewritten draw, binder names of its parameters
+    ("_transform_normal", "Normal", ["mu", "sigma2"]),
+    ("_transform_laplace", "Laplace", ["mu", "b"]),
+    ("_transform_exponential", "Exponential", ["lamb"]),
+    ("_transform_uniform", "Uniform", ["a", "b"]),
+]
+PINNED_DISPATCH = """
+@transform.register
+def _(self, dist_assign: DistAssignment):
+    if isinstance(dist_assign.distribution, Normal):
+        return self._transform_normal(dist_assign)
+
+    if isinstance(dist_assign.distribution, Uniform):
+        return self._transform_uniform(dist_assign)
+
+    if isinstance(dist_assign.distribution, Laplace):
+        return self._transform_laplace(dist_assign)
+
+    if isinstance(dist_assign.distribution, Exponential):
+        return self._transform_exponential(dist_assign)
+
+    return dist_assign
+"""
+FAMILY_ARITY = {"Normal": 2, "Laplace": 2, "Exponential": 1, "Uniform": 2}
+
+
 def translate_locscale(out, index):
-    pass
+    path = os.path.join(lib.REPO, "program", "transformer", "dist_transformer.py")
+    mod = Module(path)
+    cls = mod.cls("DistTransformer")
+    fns = {}
+    disp = []
+    for node in cls.body:
+        if isinstance(node, ast.FunctionDef):
+            if node.name == "_":
+                disp.append(node)
+            fns[node.name] = node
+    want = normalized_dump(ast.parse("class X:\n" + "\n".join("    " + l for l in PINNED_DISPATCH.strip().splitlines())).body[0].body[0])
+    if len(disp) != 1 or normalized_dump(disp[0]) != want:
+        raise Unsupported(mod.rel, disp[0] if disp else cls, "DistTransformer dispatch differs from the modelled shape")
+    for nm in ("Normal", "Uniform", "Laplace", "Exponential"):
+        if mod.resolve(nm) != "program.distribution:" + nm:
+            raise Unsupported(mod.rel, None, f"{nm} imported from {mod.resolve(nm)}")
+    out.append(f"\n(* ==== location/scale rewriting ({mod.rel}) ==== *)")
+    for meth, fam, attrs in LOCSCALE:
+        if meth not in fns:
+            raise Unsupported(mod.rel, cls, f"{meth} missing")
+        translate_one_locscale(mod, fns[meth], fam, attrs, out, index)
+
+
+def translate_one_locscale(mod, fn, fam, attrs, out, index):
+    """shape:  variable = A.variable ; d: F = A.distribution ; [identity guard on free_symbols]
+       [num, den = d.lamb.as_numer_denom() ; if num.free_symbols: raise] ; new_var = get_unique_var()
+       X = DistAssignment(new_var, F([...])) ; Y = PolyAssignment.deterministic(variable, f"...") ; return X, Y"""
+    argn = check_signature(mod, fn, 1)
+    arg = argn[0]
+    prefix = "transform_" + fam.lower()
+    binders = [(f"par_{a}", "Q") for a in attrs]
+    dist_attrs = {a: V(f"par_{a}", "Q") for a in attrs}
+    dvar = None
+    varvar = None
+    newvar = None
+    new_dist = None
+    expr = None
+    guard_seen = False
+    tr = Tr(mod, {}, 0, [])
+    env = {}
+
+    def is_attr(n, obj, attr=None):
+        return isinstance(n, ast.Attribute) and isinstance(n.value, ast.Name) and n.value.id == obj and (attr is None or n.attr == attr)
+
+    class DAttr(ast.NodeTransformer):
+        """d.mu -> name __d_mu bound in env"""
+        def visit_Attribute(self_, n):
+            if dvar and is_attr(n, dvar) and n.attr in dist_attrs:
+                nm = f"__d_{n.attr}"
+                env[nm] = dist_attrs[n.attr]
+                return ast.copy_location(ast.Name(id=nm, ctx=ast.Load()), n)
+            return self_.generic_visit(n)
+
+    def only_free_symbol_tests(test):
+        """`not d.x.free_symbols [and not d.y.free_symbols]` / `num.free_symbols`"""
+        for sub in ast.walk(test):
+            if isinstance(sub, (ast.BoolOp, ast.And, ast.Or, ast.UnaryOp, ast.Not, ast.Load, ast.Name)):
+                continue
+            if isinstance(sub, ast.Attribute):
+                continue
+            return False
+        return any(isinstance(sub, ast.Attribute) and sub.attr == "free_symbols" for sub in ast.walk(test))
+
+    for s in fn.body:
+        if isinstance(s, ast.Expr) and isinstance(s.value, ast.Constant):
+            continue
+        if isinstance(s, ast.Assign) and len(s.targets) == 1 and isinstance(s.targets[0], ast.Name) and is_attr(s.value, arg, "variable"):
+            varvar = s.targets[0].id
+            continue
+        if isinstance(s, ast.AnnAssign) and isinstance(s.target, ast.Name) and s.value is not None and is_attr(s.value, arg, "distribution") \
+                and isinstance(s.annotation, ast.Name) and s.annotation.id == fam:
+            dvar = s.target.id
+            continue
+        if isinstance(s, ast.If) and not s.orelse and only_free_symbol_tests(s.test):
+            if len(s.body) == 1 and isinstance(s.body[0], ast.Return) and isinstance(s.body[0].value, ast.Name) and s.body[0].value.id == arg:
+                guard_seen = True     # identity on draws with constant parameters
+                continue
+            if len(s.body) == 1 and isinstance(s.body[0], ast.Raise):
+                continue              # refusal (not a wrong result)
+            raise Unsupported(mod.rel, s, "guard form")
+        if isinstance(s, ast.Assign) and len(s.targets) == 1 and isinstance(s.targets[0], ast.Tuple) and fam == "Exponential":
+            t = s.targets[0]
+            v = s.value
+            if len(t.elts) == 2 and all(isinstance(e, ast.Name) for e in t.elts) and isinstance(v, ast.Call) and not v.args \
+                    and isinstance(v.func, ast.Attribute) and v.func.attr == "as_numer_denom" and dvar and is_attr(v.func.value, dvar, "lamb"):
+                # model: lamb = numerator / denominator
+                binders[:] = [("par_numerator", "Q"), ("par_denominator", "Q")]
+                env[t.elts[0].id] = V("par_numerator", "Q")
+                env[t.elts[1].id] = V("par_denominator", "Q")
+                dist_attrs.clear()
+                continue
+            raise Unsupported(mod.rel, s, "tuple assignment form")
+        if isinstance(s, ast.Assign) and len(s.targets) == 1 and isinstance(s.targets[0], ast.Name):
+            nm = s.targets[0].id
+            v = s.value
+            if isinstance(v, ast.Call) and isinstance(v.func, ast.Name) and mod.resolve(v.func.id) == "utils:get_unique_var" and not v.args:
+                newvar = nm
+                env[nm] = V("z", "zvar")
+                continue
+            if isinstance(v, ast.Call) and isinstance(v.func, ast.Name) and mod.resolve(v.func.id) == "program.assignment:DistAssignment":
+                if len(v.args) != 2 or not (isinstance(v.args[0], ast.Name) and v.args[0].id == newvar):
+                    raise Unsupported(mod.rel, s, "DistAssignment(new_var, ...) expected")
+                d = v.args[1]
+                if not (isinstance(d, ast.Call) and isinstance(d.func, ast.Name) and d.func.id == fam and len(d.args) == 1
+                        and isinstance(d.args[0], ast.List) and len(d.args[0].elts) == FAMILY_ARITY[fam]):
+                    raise Unsupported(mod.rel, s, f"new draw must be {fam}([...{FAMILY_ARITY[fam]} parameters])")
+                ps = [tr.coerce(tr.expr(DAttr().visit(e), env), "Q", e) for e in d.args[0].elts]
+                new_dist = ps
+                continue
+            if isinstance(v, ast.Call) and isinstance(v.func, ast.Attribute) and v.func.attr == "deterministic" \
+                    and isinstance(v.func.value, ast.Name) and mod.resolve(v.func.value.id) == "program.assignment:PolyAssignment":
+                if len(v.args) != 2 or not (isinstance(v.args[0], ast.Name) and v.args[0].id == varvar) or not isinstance(v.args[1], ast.JoinedStr):
+                    raise Unsupported(mod.rel, s, "PolyAssignment.deterministic(variable, f\"...\") expected")
+                js = DAttr().visit(v.args[1])
+                tree, loc = tr.fstring_template(js, env)
+                c0, c1 = tr.lin(tree, loc)
+                expr = (c0, c1, nm)
+                continue
+            if isinstance(v, ast.Tuple) and all(isinstance(e, ast.Call) and isinstance(e.func, ast.Name) and e.func.id == "str" for e in v.elts):
+                raise Unsupported(mod.rel, s, "tuple of str()")
+            raise Unsupported(mod.rel, s, "assignment form")
+        if isinstance(s, ast.Assign) and len(s.targets) == 1 and isinstance(s.targets[0], ast.Tuple) and fam == "Uniform":
+            # a, b = str(uniform.a), str(uniform.b): printed texts of the parameters
+            t, v = s.targets[0], s.value
+            ok = isinstance(v, ast.Tuple) and len(v.elts) == len(t.elts) and all(isinstance(e, ast.Name) for e in t.elts)
+            if ok:
+                for tn, e in zip(t.elts, v.elts):
+                    if not (isinstance(e, ast.Call) and isinstance(e.func, ast.Name) and e.func.id == "str" and len(e.args) == 1
+                            and dvar and is_attr(e.args[0], dvar) and e.args[0].attr in dist_attrs):
+                        ok = False
+                        break
+                    env[tn.id] = dist_attrs[e.args[0].attr]
+            if ok:
+                continue
+            raise Unsupported(mod.rel, s, "str() tuple form")
+        if isinstance(s, ast.Return):
+            r = s.value
+            if not (isinstance(r, ast.Tuple) and len(r.elts) == 2 and all(isinstance(e, ast.Name) for e in r.elts)) or expr is None \
+                    or new_dist is None or r.elts[1].id != expr[2]:
+                raise Unsupported(mod.rel, s, "return (new draw, new assignment) expected")
+            break
+        raise Unsupported(mod.rel, s, f"statement {type(s).__name__} in {fn.name}")
+    else:
+        raise Unsupported(mod.rel, fn, "no return")
+    if not guard_seen or expr is None or new_dist is None:
+        raise Unsupported(mod.rel, fn, "missing identity guard / new draw / new assignment")
+    bind = " ".join(f"({nm} : {COQ_TY[ty]})" for nm, ty in binders)
+    c0, c1, _ = expr
+    t0 = tr.coerce(c0, "Q", fn) if c0 is not None else "0"
+    t1 = tr.coerce(c1, "sqv", fn) if c1 is not None else "(Rat 0)"
+    dty = " * ".join(["Qc"] * len(new_dist))
+    out.append(f"Definition {prefix}_dist {bind} : {dty} :=\n  ({', '.join(new_dist)}).")
+    out.append(f"Definition {prefix}_expr {bind} : lin :=\n  (mklin {t0} {t1}).")
+    index[prefix] = {"class": "DistTransformer", "file": mod.rel, "params": binders, "methods": [fn.name]}
+
 
 
 HEADER = """(* GENERATED by harness/translate_dist.py from {repo}/program/distribution/*.py — do not edit.
